@@ -654,8 +654,8 @@ theorem sorted_genome_order (ivs : List Iv) :
 /-! ### the traced kernels are the model's kernels -/
 
 /-- **C10.traced_kernels** — obligations regenerated from the running code on every run: the expressions
-recorded by executing the real `GenomicIntervalsFull.clip`, `Geometry.clip` and `Geometry.extend_to_size`
-on symbolic columns (`Gen/C10.lean`) are, for all coordinates, the single-contig kernels of the model
+recorded by executing the real `GenomicIntervalsFull.clip` / `.extended_to_size` / `.get_location`,
+`Geometry.clip` and `Geometry.extend_to_size` on symbolic columns (`Gen/C10.lean`) are, for all coordinates, the single-contig kernels of the model
 applied with the size of the row's *own* chromosome (`own`), never a neighbour's (`other`); and the
 window flanks observed on the running `get_windows` are the model's `flanks`. -/
 theorem traced_kernels :
@@ -665,14 +665,25 @@ theorem traced_kernels :
       Gen.C10.clipGeometryS s e L sz other fwd = (clip1 sz s e).1 ∧
       Gen.C10.clipGeometryE s e L sz other fwd = (clip1 sz s e).2 ∧
       Gen.C10.extendGeometryS s e L sz other fwd = (extend1 sz L fwd s e).1 ∧
-      Gen.C10.extendGeometryE s e L sz other fwd = (extend1 sz L fwd s e).2) ∧
+      Gen.C10.extendGeometryE s e L sz other fwd = (extend1 sz L fwd s e).2 ∧
+      Gen.C10.extendGenomeS s e L sz other fwd = (extend1 sz L fwd s e).1 ∧
+      Gen.C10.extendGenomeE s e L sz other fwd = (extend1 sz L fwd s e).2) ∧
+    (∀ (c s e : Nat) (fwd : Bool),
+      Gen.C10.locStart s e fwd = location true 0 { c := c, s := s, e := e, fwd := fwd } ∧
+      Gen.C10.locStop s e fwd = location true 1 { c := c, s := s, e := e, fwd := fwd } ∧
+      Gen.C10.locCenter s e fwd = location true 2 { c := c, s := s, e := e, fwd := fwd } ∧
+      Gen.C10.locStartU s e fwd = location false 0 { c := c, s := s, e := e, fwd := fwd } ∧
+      Gen.C10.locCenterU s e fwd = location false 2 { c := c, s := s, e := e, fwd := fwd }) ∧
     Gen.C10.flankTable.all (fun x => flanks (some x.1) 0 == (x.2.1, x.2.2)) = true ∧
     Gen.C10.wsizeTable.all (fun x => flanks none x.1 == (x.2.1, x.2.2)) = true := by
-  refine ⟨?_, by decide, by decide⟩
-  intro s e L other sz fwd
-  simp only [Gen.C10.clipGenomeS, Gen.C10.clipGenomeE, Gen.C10.clipGeometryS, Gen.C10.clipGeometryE,
-    Gen.C10.extendGeometryS, Gen.C10.extendGeometryE, clip1, extend1]
-  cases fwd <;> simp <;> omega
+  refine ⟨?_, ?_, by decide, by decide⟩
+  · intro s e L other sz fwd
+    simp only [Gen.C10.clipGenomeS, Gen.C10.clipGenomeE, Gen.C10.clipGeometryS, Gen.C10.clipGeometryE,
+      Gen.C10.extendGeometryS, Gen.C10.extendGeometryE, Gen.C10.extendGenomeS, Gen.C10.extendGenomeE, clip1, extend1]
+    cases fwd <;> simp <;> omega
+  · intro c s e fwd
+    simp only [Gen.C10.locStart, Gen.C10.locStop, Gen.C10.locCenter, Gen.C10.locStartU, Gen.C10.locCenterU, location]
+    cases fwd <;> simp <;> omega
 
 /-! ### genome-wide quantities and the streamed per-chromosome path -/
 
@@ -817,5 +828,35 @@ theorem geometry_sort_genome_order (sizes : List Nat) (ivs : List Iv) (hv : ∀ 
   · exfalso
     have := offset_add_size_le sizes b.c a.c hc (by omega)
     omega
+
+/-! ### chromosome-name lookup -/
+
+/-- **C10.name_lookup_partial** — when the hashes of the genome's chromosome names are pairwise distinct
+(the code asserts this when the encoding is built), looking up a chromosome name of the genome returns
+exactly its own index — names that are prefixes of one another are never confused — and whatever
+index a query is mapped to carries the query's hash. *Partial*: a name that is NOT in the genome is
+rejected only if its hash (polynomial in 129 modulo 2^31 − 1) differs from every genome name's hash;
+a colliding foreign name would be accepted silently. Hash collisions are not excluded by proof. -/
+theorem name_lookup_partial (names : List (List Nat)) (hnd : (names.map asciiHash).Nodup) :
+    (∀ i (h : i < names.length), lookupName names names[i] = some i) ∧
+    (∀ q i, lookupName names q = some i → ∃ h : i < names.length, asciiHash names[i] = asciiHash q) := by
+  constructor
+  · intro i h
+    have hi : i < (names.map asciiHash).length := by simpa using h
+    have := hnd.idxOf_getElem i hi
+    simp only [List.getElem_map] at this
+    simp [lookupName, this, h]
+  · intro q i hq
+    simp only [lookupName] at hq
+    split at hq
+    · rename_i hlt
+      simp only [Option.some.injEq] at hq
+      subst hq
+      have := List.getElem_idxOf hlt
+      simp only [List.getElem_map] at this
+      exact ⟨by simpa using hlt, this⟩
+    · simp at hq
+
+example : ([[99, 104, 114, 49], [99, 104, 114, 49, 49], [99, 104, 114, 49, 95, 97]].map asciiHash).Nodup := by decide
 
 end C10
